@@ -207,8 +207,9 @@ class URLInfo(object):
         info.fragment = normalize_fragment(fragment, encoding=encoding)
 
         info.userinfo = userinfo
-        info.username = percent_decode(username, encoding=encoding)
-        info.password = percent_decode(password, encoding=encoding)
+        # Escapes in the userinfo are UTF-8: that is what .url writes
+        info.username = percent_decode(username)
+        info.password = percent_decode(password)
 
         # The URL is reassembled with these encoded as UTF-8. Refuse what
         # cannot be encoded (lone surrogates) now instead of in .url
